@@ -104,7 +104,7 @@ func H_C01_decode_nested() {
 // all 2^6 x 4 option combinations on a fixed-shape document (quick) / small trees (thorough)
 func H_C01_decode_opts() {
 	o := vDecOpts{textKey: "#text"}
-	o.attrPrefix = []string{"-", "", "@", "at_"}[vChoose(4)]
+	o.attrPrefix = []string{"-", "", "@", "at_", "A_"}[vChoose(5)] // the last one has a letter that case folding changes
 	o.lower = vNondetBool()
 	o.snake = vNondetBool()
 	o.simpleAsMap = vNondetBool()
@@ -141,10 +141,17 @@ func H_C01_decode_cast() {
 	}
 	vals := []string{"1", "x", "true", "1.5", "-7", "0", "010", "08", "0x1F", "1_0"}
 	k1 := &vXElem{name: "a", items: []vXItem{{kind: 1, text: vals[vChoose(len(vals))]}}}
-	k2 := &vXElem{name: vNondetString(1, 1, "ab"), items: []vXItem{{kind: 1, text: vals[vChoose(6)]}}}
-	k3 := &vXElem{name: "c"}
-	root := &vXElem{name: "r", attrs: [][2]string{{"n", vals[[]int{0, 1, 2, 3, 6, 8}[vChoose(6)]]}},
-		items: []vXItem{{kind: 0, el: k1}, {kind: 0, el: k2}, {kind: 0, el: k3}}}
+	var root *vXElem
+	if vChoose(2) == 1 {
+		// castable text before the first child of an element without attributes
+		k3 := &vXElem{name: "c", items: []vXItem{{kind: 1, text: vals[vChoose(4)]}, {kind: 0, el: &vXElem{name: "d"}}}}
+		root = &vXElem{name: "r", items: []vXItem{{kind: 1, text: vals[vChoose(4)]}, {kind: 0, el: k1}, {kind: 0, el: k3}}}
+	} else {
+		k2 := &vXElem{name: vNondetString(1, 1, "ab"), items: []vXItem{{kind: 1, text: vals[vChoose(6)]}}}
+		k3 := &vXElem{name: "c"}
+		root = &vXElem{name: "r", attrs: [][2]string{{"n", vals[[]int{0, 1, 2, 3, 6, 8}[vChoose(6)]]}},
+			items: []vXItem{{kind: 0, el: k1}, {kind: 0, el: k2}, {kind: 0, el: k3}}}
+	}
 	vSetCastOpts(co)
 	vC01tree(root, o, "")
 }
